@@ -65,6 +65,9 @@ TEMPLATES = {
     "dsl_inherited": ("mn: int", [], '_child(mn)', DV, DPRE1),
     "declared_matches_pattern": ("mn: int", [], 'parse_s({"properties": {"a": {"minimum": mn}, "ab": {"type": "integer", "default": 1}}, "patternProperties": {"^a": {"maximum": mn}, "b$": {"multipleOf": 2}}, "required": ["ab"]})', DV, DPRE1),
     "declared_matches_pattern_typed": ("mn: int", [], 'parse_s({"type": "object", "title": "PM", "properties": {"a": {"minimum": mn}, "a b": {"type": "integer"}}, "patternProperties": {"^a": {"maximum": mn}}})', DV, DPRE1),
+    "nested_bool_literals": ("m: int", [], 'parse_s({"anyOf": [{"const": {"flags": [True, m], "deep": {"x": [[False]]}}}, {"enum": [[[True]], {"k": {"j": False}}, m]}], "properties": {"a": {"const": [[True, 1]]}}})', "Union[int, Dict[str, int], List[List[Union[int, bool]]]]", "(not isinstance({0}, dict) or (len({0}) <= 1 and all(k in ('a', 'b') for k in {0}))) and (not isinstance({0}, list) or (len({0}) <= 2 and all(len(x) <= 2 for x in {0})))"),
+    "unique_nested_data": ("m: int", [], 'parse_s({"uniqueItems": True, "items": {"enum": [[True], [False, m], [[True]], [m]]}})', "List[List[Union[int, bool]]]", "len({0}) <= 2 and all(len(x) <= 2 for x in {0})"),
+    "declared_allof_matches_pattern": ("mn: int", [], 'parse_s({"properties": {"ab": {"allOf": [{"minimum": mn}, {"type": "integer"}]}, "a": {"anyOf": [{"maximum": mn}, {"type": "null"}]}}, "patternProperties": {"^a": {"multipleOf": 2}}})', DV, DPRE1),
     "pattern_deps": ("mn: int", [], 'parse_s({"patternProperties": {"^a": {"maximum": mn}}, "dependencies": {"a": ["b"], "b": {"minProperties": 2}}, "propertyNames": {"maxLength": 2}})', DV, DPRE1),
     "tuple_items": ("m: int", [], 'parse_s({"type": "array", "items": [{"type": "integer"}, {"minimum": m}], "additionalItems": {"type": "boolean"}, "uniqueItems": True})', LV, "len({0}) <= 3"),
     "items_of_objects": ("m: int", [], 'Array(Object.inline("It", properties={"a": Property(Integer(maximum=m), required=True)}), minItems=1)', "List[Dict[str, int]]", "len({0}) <= 2 and all(len(d) <= 1 and all(k in ('a', 'b') for k in d) for d in {0})"),
@@ -94,6 +97,8 @@ def harnesses(ctx) -> List[H]:
             pre = list(hpre) + [vpre.format(f"v{i}") for i in range(1, k + 1)]
             if k == 2:
                 pre = [x.replace("<= 3", "<= 2") for x in pre]
+                if name.startswith(("declared_matches_pattern", "declared_allof", "nested_bool", "shared_instances")):
+                    pre.append("len(v1) <= 1" if "Union" not in vt else "not isinstance(v1, (dict, list)) or len(v1) <= 1")
                 pre.append("len(v2) <= 1" if "Union" not in vt else "not isinstance(v2, dict) or len(v2) <= 1")
             vals = ", ".join(f"v{i}" for i in range(1, k + 1))
             body = f"""
